@@ -90,7 +90,7 @@ def requests_multiset(reqs):
     return out
 
 
-def check(prop, scn, seed, models=None, skipped=None, extra_probes=None):
+def check(prop, scn, seed, models=None, skipped=None, extra_probes=None, judge_all=False):
     spec = SPECS[prop]
     probes = dict(extra_probes or {})
     for k, v in (skipped or {}).items():
@@ -99,6 +99,13 @@ def check(prop, scn, seed, models=None, skipped=None, extra_probes=None):
         return {"evaluations": 1, "probes": {"empty": 1}, "findings": [], "distinct": []}
     if models is None:
         models = {ex["name"]: E.model_for(scn, k) for k, ex in enumerate(scn["executions"])}
+        if not judge_all:
+            # a replayed or shrunk scenario: it is judged only while every execution stays inside the region this
+            # property's generator accepts (a shrink may otherwise walk into a recorded finding of another property)
+            for ex in scn["executions"]:
+                why = spec["accept"](models[ex["name"]], definition=scn["machines"][ex["machine"]]["definition"])
+                if why and why != "no-fanout-failure":
+                    return {"evaluations": 1, "probes": {"skipped:" + str(why): 1}, "findings": [], "distinct": []}
     timing_sensitive = scn["config"].get("latency", "zero") != "zero" and \
         "TimeoutSeconds" in json.dumps([m["definition"] for m in scn["machines"].values()])
     mons = spec["monitors"]({} if timing_sensitive else models)
@@ -229,7 +236,7 @@ def run_one(item, extra):
             from gen import corpus
             cfg = E.policy_cfg(item[2])
             cfg["execution_ttl"] = 600
-            return check(prop, corpus.nested_scenario(item[1], cfg), item[3], extra_probes={"nested-corpus": 1})
+            return check(prop, corpus.nested_scenario(item[1], cfg), item[3], extra_probes={"nested-corpus": 1}, judge_all=True)
         if kind == "probe":
             mod = __import__("checks.%s" % prop.lower(), fromlist=["run_probe"])
             return mod.run_probe(item[1])
@@ -324,7 +331,7 @@ def loop_scenario(i):
 
 def run_loop(prop, i):
     seed, scn = loop_scenario(i)
-    return check(prop, scn, seed, extra_probes={"fan-out-re-entered-in-a-loop": 1})
+    return check(prop, scn, seed, extra_probes={"fan-out-re-entered-in-a-loop": 1}, judge_all=True)
 
 
 def run_hand(prop, i):
@@ -346,7 +353,7 @@ def run_hand(prop, i):
 
 def run_perm(prop, p):
     scn = perm_scenario(p)
-    r = check(prop, scn, 7, extra_probes={"permutation-slice": 1})
+    r = check(prop, scn, 7, extra_probes={"permutation-slice": 1}, judge_all=True)
     # barrier on the worker side: the request of the state after the join comes after every branch reply
     return r
 
